@@ -102,3 +102,164 @@ theorem propagate_prepared (D : NetD) (s : State Int) : (propagateAll D.design s
   (C04.fold_propLeaf_rest D.design _ s).2.1
 
 end FlatM
+
+namespace FlatM
+open Net
+
+/-! ### the clock edge on a flat netlist -/
+
+/-- the register rule on the pre-edge wire values `V` (C01.regNext) -/
+def regNextV (V : Nat → Nat) (R : RLeaf) (old : Nat) : Nat :=
+  C01.regNext R.hasR R.hasE R.rv (V R.r) (V R.e) (V R.d) old
+
+theorem leaf_clock_reg (D : NetD) (j : Nat) (R : RLeaf) (h : D.regs[j]? = some R) (v : Val) (x : Int) :
+    (D.leaf (D.rid j)).clock v x = R.sem.clock v x := by
+  unfold NetD.leaf NetD.rid
+  have h1 : D.combs[D.combs.length + j]? = none := List.getElem?_eq_none (by omega)
+  have h2 : D.combs.length + j - D.combs.length = j := by omega
+  rw [h1, h2, h]
+
+theorem getElem?_getD {α : Type} [Inhabited α] (l : List α) (j : Nat) (h : j < l.length) :
+    l[j]? = some (l.getD j default) := by
+  simp [List.getD_eq_getElem?_getD, List.getElem?_eq_getElem h]
+
+theorem getD_of_getElem? {α : Type} [Inhabited α] (l : List α) (j : Nat) (x : α) (h : l[j]? = some x) :
+    l.getD j default = x := by
+  simp [List.getD_eq_getElem?_getD, h]
+
+theorem reg_clock (R : RLeaf) (v : Val) (old : Nat) :
+    R.sem.clock v (old : Int) = (((regNextV v R old : Nat) : Int), [(R.q, ((regNextV v R old : Nat) : Int))]) := by
+  have h := C01.gen_reg_rule R.hasR R.hasE R.rv (v R.r) (v R.e) (v R.d) old
+  simp only [RLeaf.sem, regNextV, h.1, h.2]
+
+theorem foldl_nstep_hit (d : Design Int) (ps : List (Nat × Int)) (n0 : Val) (hn : (ps.map Prod.fst).Nodup)
+    (wv : Nat × Int) (h : wv ∈ ps) : (ps.foldl (C05.nstep d) n0) wv.1 = C05.P d wv := by
+  induction ps generalizing n0 with
+  | nil => cases h
+  | cons a ps ih =>
+    simp only [List.foldl]
+    simp only [List.map_cons, List.nodup_cons] at hn
+    simp only [List.mem_cons] at h
+    rcases h with h | h
+    · subst h
+      have hnot : ∀ (l : List (Nat × Int)) (m : Val), wv.1 ∉ l.map Prod.fst → (l.foldl (C05.nstep d) m) wv.1 = m wv.1 := by
+        intro l
+        induction l with
+        | nil => intro m _; rfl
+        | cons b l ihl =>
+          intro m hm
+          simp only [List.map_cons, List.mem_cons, not_or] at hm
+          simp only [List.foldl]
+          rw [ihl _ hm.2]
+          simp [C05.nstep, upd, hm.1]
+      rw [hnot ps _ hn.1]
+      simp [C05.nstep]
+    · exact ih _ hn.2 h
+
+theorem foldl_nstep_miss (d : Design Int) (ps : List (Nat × Int)) (n0 : Val) (w : Nat) (h : w ∉ ps.map Prod.fst) :
+    (ps.foldl (C05.nstep d) n0) w = n0 w := by
+  induction ps generalizing n0 with
+  | nil => rfl
+  | cons b l ihl =>
+    simp only [List.map_cons, List.mem_cons, not_or] at h
+    simp only [List.foldl]
+    rw [ihl _ h.2]
+    simp [C05.nstep, upd, h.1]
+
+theorem flatMap_map_single {α β γ : Type} (rid : α → β) (f : β → List γ) (g : α → γ) (l : List α)
+    (h : ∀ j, j ∈ l → f (rid j) = [g j]) : (l.map rid).flatMap f = l.map g := by
+  induction l with
+  | nil => rfl
+  | cons a l ih =>
+    simp only [List.map_cons, List.flatMap_cons, h a (by simp)]
+    rw [ih (fun j hj => h j (by simp [hj]))]
+    rfl
+
+/-- pre-edge → post-edge (`clockDrivers` then `settleAll`) on a flat netlist whose register states are `old j` -/
+theorem edge_sim (D : NetD) (s : State Int) (hp : s.prepared = [])
+    (hq : ∀ (i j : Nat) (R R' : RLeaf), D.regs[i]? = some R → D.regs[j]? = some R' → R.q = R'.q → i = j)
+    (old : Nat → Nat) (hst : ∀ j, j < D.regs.length → s.st (D.rid j) = (old j : Int)) :
+    (∀ j R, D.regs[j]? = some R →
+        (settleAll (clockDrivers D.design s D.design.drivers)).val R.q = Bits.put (D.wd R.q) (regNextV s.val R (old j)) ∧
+        (settleAll (clockDrivers D.design s D.design.drivers)).st (D.rid j) = (regNextV s.val R (old j) : Nat)) ∧
+    (∀ w, (∀ R, R ∈ D.regs → R.q ≠ w) → (settleAll (clockDrivers D.design s D.design.drivers)).val w = s.val w) ∧
+    (∀ k, k < D.combs.length → (settleAll (clockDrivers D.design s D.design.drivers)).st k = s.st k) ∧
+    (settleAll (clockDrivers D.design s D.design.drivers)).prepared = [] := by
+  let d := D.design
+  let g : Nat → Nat × Int := fun j =>
+    ((D.regs.getD j default).q, ((regNextV s.val (D.regs.getD j default) (old j) : Nat) : Int))
+  have hids : (clockDrivers d s d.drivers) = D.regIds.foldl (C05.applyRes d (C05.res d s)) s := by
+    have : clockDrivers d s d.drivers = D.regIds.foldl (clockLeaf d) s := by
+      simp [clockDrivers, d, NetD.design, enabled]
+    rw [this]
+    apply C05.foldl_clockLeaf_eq d s _ _ s rfl (fun _ _ => rfl)
+    unfold NetD.regIds
+    rw [List.nodup_iff_pairwise_ne, List.pairwise_map]
+    apply (List.nodup_iff_pairwise_ne.mp (List.nodup_range (n := D.regs.length))).imp
+    intro a b hab
+    unfold NetD.rid
+    omega
+  have hres : ∀ j, j < D.regs.length → C05.res d s (D.rid j) = (((regNextV s.val (D.regs.getD j default) (old j) : Nat) : Int), [g j]) := by
+    intro j hj
+    have hget : D.regs[j]? = some (D.regs.getD j default) := getElem?_getD _ _ hj
+    show (D.leaf (D.rid j)).clock s.val (s.st (D.rid j)) = _
+    rw [leaf_clock_reg D j _ hget, hst j hj, reg_clock]
+  have hps : D.regIds.flatMap (fun k => (C05.res d s k).2) = (List.range D.regs.length).map g := by
+    unfold NetD.regIds
+    apply flatMap_map_single
+    intro j hj
+    rw [hres j (List.mem_range.mp hj)]
+  have hfst : ((List.range D.regs.length).map g).map Prod.fst = (List.range D.regs.length).map (fun j => (D.regs.getD j default).q) := by
+    simp [g]
+  have hnd : (((List.range D.regs.length).map g).map Prod.fst).Nodup := by
+    rw [hfst, List.nodup_iff_pairwise_ne, List.pairwise_map]
+    apply (List.nodup_iff_pairwise_ne.mp (List.nodup_range (n := D.regs.length))).imp_of_mem
+    intro a b ha hb hab e
+    have ha' := List.mem_range.mp ha
+    have hb' := List.mem_range.mp hb
+    exact hab (hq a b _ _ (getElem?_getD _ _ ha') (getElem?_getD _ _ hb') e)
+  have hprep : (clockDrivers d s d.drivers).prepared = ((List.range D.regs.length).map g).map Prod.fst := by
+    rw [hids, C05.foldl_applyRes_prepared, hp, hps]; simp
+  have hnxt : (clockDrivers d s d.drivers).nxt = ((List.range D.regs.length).map g).foldl (C05.nstep d) s.nxt := by
+    rw [hids, C05.foldl_applyRes_nxt, hps]
+  have hval : (clockDrivers d s d.drivers).val = s.val := by rw [hids, C05.foldl_applyRes_val]
+  have hstk : ∀ k, (clockDrivers d s d.drivers).st k = if k ∈ D.regIds then (C05.res d s k).1 else s.st k := by
+    intro k; rw [hids, C05.foldl_applyRes_st]
+  refine ⟨?_, ?_, ?_, rfl⟩
+  · intro j R hR
+    have hj : j < D.regs.length := by
+      rcases Nat.lt_or_ge j D.regs.length with h | h
+      · exact h
+      · rw [List.getElem?_eq_none h] at hR; cases hR
+    have hRd : D.regs.getD j default = R := getD_of_getElem? _ _ _ hR
+    constructor
+    · rw [C05.settle_exactly, hprep, hnxt]
+      have hmem : g j ∈ (List.range D.regs.length).map g := List.mem_map.mpr ⟨j, List.mem_range.mpr hj, rfl⟩
+      have hq1 : (g j).1 = R.q := by show (D.regs.getD j default).q = R.q; rw [hRd]
+      have hin : R.q ∈ ((List.range D.regs.length).map g).map Prod.fst := hq1 ▸ List.mem_map.mpr ⟨g j, hmem, rfl⟩
+      rw [if_pos hin]
+      have := foldl_nstep_hit d _ s.nxt hnd (g j) hmem
+      rw [hq1] at this
+      rw [this]
+      show Bits.put (D.wd (D.regs.getD j default).q) _ = _
+      rw [hRd]
+    · show (clockDrivers d s d.drivers).st (D.rid j) = _
+      rw [hstk, if_pos (by unfold NetD.regIds; exact List.mem_map.mpr ⟨j, List.mem_range.mpr hj, rfl⟩), hres j hj, hRd]
+  · intro w hw
+    rw [C05.settle_exactly, hprep, hval]
+    have : w ∉ ((List.range D.regs.length).map g).map Prod.fst := by
+      rw [hfst]
+      intro hmem
+      rcases List.mem_map.mp hmem with ⟨j, hj, e⟩
+      have hj' := List.mem_range.mp hj
+      exact hw (D.regs.getD j default) (List.mem_of_getElem? (getElem?_getD _ _ hj')) e
+    rw [if_neg this]
+  · intro k hk
+    show (clockDrivers d s d.drivers).st k = _
+    rw [hstk, if_neg]
+    unfold NetD.regIds NetD.rid
+    intro hmem
+    rcases List.mem_map.mp hmem with ⟨j, _, e⟩
+    omega
+
+end FlatM
